@@ -6,6 +6,7 @@ from spverif.ref import cfdp as R
 from . import _cfdp as C
 
 SCRIBBLE = True
+THOROUGH_SCALE = 24
 ID = "C05"
 LEVEL = "exploration"
 SHARDS = {"quick": 1, "thorough": 8}
